@@ -42,5 +42,6 @@ func init() {
 		seeded("C16", "C16-2", "C16-B2", "Close assigns object"),
 		seeded("C17", "C17-2", "C17-O5", ""),
 		seeded("C19", "C19-2", "C19-E4", "late-error callback"),
+		seeded("C10", "C10-2", "C10-J1", "join.New sides"),
 	)
 }
